@@ -18,11 +18,13 @@ CONSTANTS MaxInst, MaxOps, Emit
 Types == {"int", "string", "array", "U", "W"}     \* two user classes: instantiations that differ only by class name
 Kinds == Types \cup {"X"}                          \* X: an unrelated class, accepted by nobody
 \* generic classes: member -> type parameter position
-Members == [Box |-> [v |-> 1, id |-> 1], Pair |-> [k |-> 1, v |-> 2, setv |-> 2]]
-IsParam == [Box |-> [v |-> FALSE, id |-> TRUE], Pair |-> [k |-> FALSE, v |-> FALSE, setv |-> TRUE]]
+\* Repo<T> extends a non-generic parent class: the instantiation must keep its type arguments through inheritance
+Members == [Box |-> [v |-> 1, id |-> 1], Pair |-> [k |-> 1, v |-> 2, setv |-> 2], Repo |-> [last |-> 1, save |-> 1]]
+IsParam == [Box |-> [v |-> FALSE, id |-> TRUE], Pair |-> [k |-> FALSE, v |-> FALSE, setv |-> TRUE], Repo |-> [last |-> FALSE, save |-> TRUE]]
 ArgChoices == [Box |-> {<<t>> : t \in Types},
-               Pair |-> {<<a, b>> : a \in {"int", "string"}, b \in {"string", "array", "U", "W"}}]
-Classes == {"Box", "Pair"}
+               Pair |-> {<<a, b>> : a \in {"int", "string"}, b \in {"string", "array", "U", "W"}},
+               Repo |-> {<<t>> : t \in {"int", "string", "U"}}]
+Classes == {"Box", "Pair", "Repo"}
 \* where the write is written: at its own source position, or inside a helper function shared by every
 \* instance (one write site executed for different instantiations -- anything cached per site must not decide)
 Vias == {"direct", "helper"}
@@ -60,7 +62,7 @@ Write(i, m, k, via) ==
   /\ n' = n + 1 /\ UNCHANGED insts
 
 Next == \/ \E c \in Classes : \E a \in ArgChoices[c] : Instantiate(c, a)
-        \/ \E i \in 1..MaxInst, m \in {"v", "id", "k", "setv"}, k \in Kinds, via \in Vias : Write(i, m, k, via)
+        \/ \E i \in 1..MaxInst, m \in {"v", "id", "k", "setv", "last", "save"}, k \in Kinds, via \in Vias : Write(i, m, k, via)
 Spec == Init /\ [][Next]_vars
 
 St  == [insts |-> insts, decl |-> decl]
